@@ -37,8 +37,13 @@ def base_name(name):
 from pvc.result import Result
 
 
+SYNC = {"lib_used": {}, "out_of_sync": {}}
+
+
 def run_check(pid, tier, seed):
     t0 = time.time()
+    SYNC["lib_used"].clear()
+    SYNC["out_of_sync"].clear()
     cm = load_module(pid)
     mods = cm.MODULES if hasattr(cm, "MODULES") else [(cm.MODULE, cm.VERIFY)]
     results, stats, notes, functions, undecided_reasons = [], [], [], [], []
@@ -70,6 +75,10 @@ def run_check(pid, tier, seed):
                 results.append(Result(f"{short}/supported", "supported", "undecided", short, 0, detail={"error": f"engine exception {type(e).__name__}: {e}", "trace": _tb.format_exc()[-600:]}))
         smt_obls += eng.obls
         notes += [list(n) for n in eng.notes]
+        for kk, vv in eng.lib_used.items():
+            SYNC["lib_used"].setdefault(kk, set()).update(vv)
+        for kk, vv in eng.out_of_sync.items():
+            SYNC["out_of_sync"].setdefault(kk, []).extend(vv)
     verdicts = solve.discharge_all(smt_obls, tier)
     # one obligation per name; it is decided on every path that reaches it (refuted if refuted on any path)
     byname = {}
@@ -172,11 +181,20 @@ def main(argv=None):
     bounded_bad = [r for r in bounded if r.status == "refuted"]
     violations, known = [], []
     bpath = os.path.join(ROOT, "baseline", pid + ".json")
-    baseline = set(json.load(open(bpath))["proved"]) if os.path.exists(bpath) else set()
+    bdata = json.load(open(bpath)) if os.path.exists(bpath) else {}
+    baseline = set(bdata.get("proved", []))
     if a.update_baseline:
         os.makedirs(os.path.join(ROOT, "baseline"), exist_ok=True)
-        json.dump({"property": pid, "proved": sorted(r.name for r in proved)}, open(bpath, "w"), indent=1)
+        json.dump({"property": pid, "proved": sorted(r.name for r in proved), "lib_used": {k: sorted(v) for k, v in sorted(SYNC["lib_used"].items())}}, open(bpath, "w"), indent=1)
         print(f"baseline written: {len(proved)} proved obligations")
+    # Is each contract still about the code it runs against?  Library patterns that matched a call on the delivered tree and match none now
+    # (a renamed receiver the fallback could not resolve, a reshaped call), typed locals or loop keys that are gone: the function's model is
+    # not the one the contract was written for.  Its failed obligations are then undecided, not violations -- unless an input replays natively.
+    out_of_sync = {k: list(v) for k, v in SYNC["out_of_sync"].items()}
+    for short, pats in bdata.get("lib_used", {}).items():
+        gone = sorted(p_ for p_ in pats if p_ not in SYNC["lib_used"].get(short, set()) and "." in p_.split("(")[0] and not p_.startswith("self."))
+        if gone:
+            out_of_sync.setdefault(short, []).append("library patterns of the contract match no call any more: " + ", ".join(gone))
     for r in refuted + bounded_bad:
         path, rec = None, {}
         f = match_finding(findings, pid, r, rec)
@@ -188,6 +206,11 @@ def main(argv=None):
         # A stage-2 'sat' is only a candidate (hypotheses were weakened by instantiation).  It counts as a
         # violation when it replays on the real code, or when this obligation was proved on the unchanged
         # tree (committed baseline) and now has a counter-model; otherwise it is undecided.
+        if r.function in out_of_sync and not rec.get("replayed") and r.kind not in ("finite", "frame", "bounded"):
+            r.status = "undecided"
+            r.detail["contract-out-of-sync"] = out_of_sync[r.function]
+            undecided.append(r)
+            continue
         candidate_only = r.detail.get("stage") == 2 and r.kind not in ("frame", "site-exists", "finite")
         if candidate_only and not rec.get("replayed") and r.name not in baseline:
             r.status = "undecided"
